@@ -302,7 +302,17 @@ class TermMixin:
                 except Dead:
                     continue
                 if shape and self._want_partition(fr, b, "value", v):
-                    ns.key = ns.key + (("val", repr(d.lin) if not shape else self._bits_name(bits), v),)
+                    unk1 = [(i, at) for i, at in enumerate(bits) if at not in (0, 1)]
+                    if len(unk1) == 1 and unk1[0][1][0] in ("b", "nb"):
+                        # a single flag bit matched against a literal (`match h & FLAG { 0 => .., _ => .. }`): the same
+                        # partition predicate as `if h & FLAG != 0`
+                        i1, at1 = unk1[0]
+                        w1 = (v >> i1) & 1
+                        kb = ("bit", at1[1], at1[2], w1 if at1[0] == "b" else 1 - w1)
+                        if kb not in ns.key:
+                            ns.key = ns.key + (kb,)
+                    else:
+                        ns.key = ns.key + (("val", repr(d.lin) if not shape else self._bits_name(bits), v),)
                 excluded.append(v)
                 out.append((x, ns))
             ns = st.fork()
@@ -347,6 +357,22 @@ class TermMixin:
                                 x |= 1 << i
                         allv.add(x)
                     if allv <= set(vals):
+                        return out
+                    rest1 = sorted(allv - set(vals))
+                    if len(unk) == 1 and len(rest1) == 1 and bits[unk[0]][0] in ("b", "nb"):
+                        # the only value left for a single flag bit: decided, and keyed like the branch on the bit
+                        at1 = bits[unk[0]]
+                        w1 = (rest1[0] >> unk[0]) & 1
+                        real1 = w1 if at1[0] == "b" else 1 - w1
+                        try:
+                            ns.set_bit(at1[1], at1[2], real1)
+                        except Dead:
+                            return out
+                        if self._want_partition(fr, b, "value", "other"):
+                            kb = ("bit", at1[1], at1[2], real1)
+                            if kb not in ns.key:
+                                ns.key = ns.key + (kb,)
+                        out.append((other, ns))
                         return out
                 if self._want_partition(fr, b, "value", "other"):
                     ns.key = ns.key + (("val", self._bits_name(bits), "other"),)
